@@ -6,7 +6,7 @@ import (
 
 	"gonum.org/v1/gonum/graph/formats/rdf"
 
-	"verif/harness/internal/core"
+	"gonum.org/v1/gonum/verifharness/internal/core"
 )
 
 func init() {
